@@ -58,6 +58,20 @@ pub fn gen_content(kind: &str, len: usize, x: &mut u64) -> Vec<u8> {
         "random" => (0..len).map(|_| lcg(x) as u8).collect(),
         "constant" => vec![0x5Au8; len],
         "zeros" => vec![0u8; len],
+        // noise, then one long run of a single byte (two thirds of the stream: with the length class "gtmax" twice the maximum chunk size,
+        // so that maximum-size cuts fall inside the run), then noise again - a sparse image with data behind the hole
+        "midrun" => {
+            let b = [0u8, 0xFF, 0x20][(lcg(x) % 3) as usize];
+            let head = len / 6;
+            let run = len * 2 / 3;
+            let mut v: Vec<u8> = (0..head).map(|_| lcg(x) as u8).collect();
+            v.extend(std::iter::repeat(b).take(run));
+            while v.len() < len {
+                v.push(lcg(x) as u8);
+            }
+            v.truncate(len);
+            v
+        }
         "zeroruns" => {
             let mut v = Vec::with_capacity(len);
             while v.len() < len {
@@ -153,7 +167,8 @@ pub fn concretise(sc: &Value, seed: u64) -> Conf {
     let avg = 1usize << (bits + 1);
     let window = if alg == 0 { 16 } else { 64 };
     let rel = sc.get("rel").and_then(|v| v.as_str()).unwrap_or("gt");
-    let min = match rel { "lt" => window / 2, "eq" => window, _ => (window + 24).min(avg) };
+    // "wide": a minimum chunk size of many windows (the chunker jumps over most of every chunk's head without hashing it)
+    let min = match rel { "lt" => window / 2, "eq" => window, "wide" => (window * 8).min(avg), _ => (window + 24).min(avg) };
     let min = min.min(avg);
     let max = if big { 4 << 20 } else { avg * 4 };
     let fixed = if big { 1_048_577 } else { [1usize, 7, 64, 1000][(lcg(&mut x) % 4) as usize] };
